@@ -17,6 +17,14 @@ func main() {
 		os.Exit(2)
 	}
 	id := os.Args[1]
+	if id == "C04" && os.Args[2] == "--worker" {
+		props.C04Worker(os.Args[3:])
+		return
+	}
+	if id == "C04" && os.Args[2] == "--one" {
+		props.C04One(os.Args[3:])
+		return
+	}
 	p, ok := props.Registry[id]
 	if !ok {
 		core.Harness("unknown property %q", id)
